@@ -321,6 +321,18 @@ def emit_fn(data, it, ckey, C, tlog, anchors_used, canary=False):
                 ed.insert(l["body_close"], "\n" + text.rstrip("\n") + "\n    ", order=0)
             else:
                 raise Undecided("bad anchor %s" % key)
+        elif parts[0] == "havoc_loop":
+            # T16: loop N is NOT verified: its text is replaced by the given statement (a call to a function with an
+            # ASSUMED contract).  The loop text is kept as a comment; the evidence lists it as trusted code.
+            n = int(parts[1])
+            if n not in loops:
+                raise Undecided("lost anchor: loop %d of %s (function now has %d loops)" % (n, it["path"], len(loops)))
+            l = loops[n]
+            ltxt = data[l["start"]:l["end"]]
+            cm = b"\n".join(b"// T16| " + x for x in ltxt.replace(b"/*", b"/ *").replace(b"*/", b"* /").split(b"\n"))
+            ed.replace(l["start"], l["end"], b"/* T16: loop %d not verified, replaced by an assumed-contract call */\n" % n + cm + b"\n" + text.encode())
+            tlog.append({"t": "T16", "item": it["path"], "loop": n, "loop_sha256_16": sha(ltxt),
+                         "note": "loop not verified: replaced by `%s` (assumed contract)" % text.strip().split("\n")[0][:120]})
         elif parts[0] in ("before_loop", "after_loop"):
             n = int(parts[1])
             if n not in loops:
